@@ -45,14 +45,25 @@ TRemove  == Ev.a = "Remove"  /\ (Accept(CanRemove(Ev.p), RemoveT(Ev.p), {Ev.p, P
 TChmod   == Ev.a = "Chmod"   /\ ((Accept(CanAttr(Ev.p), tree, {Ev.p}, {"mode"}) /\ At[Ev.p].mode = Ev.v) \/ Refuse({Ev.p}))
 TChown   == Ev.a = "Chown"   /\ ((Accept(CanAttr(Ev.p), tree, {Ev.p}, {"uid", "gid"}) /\ At[Ev.p].uid = Ev.v /\ At[Ev.p].gid = Ev.w) \/ Refuse({Ev.p}))
 TChtimes == Ev.a = "Chtimes" /\ ((Accept(CanAttr(Ev.p), tree, {Ev.p}, {"mt", "at"}) /\ At[Ev.p].mt = Ev.v /\ At[Ev.p].at = Ev.w) \/ Refuse({Ev.p}))
+\* Truncate is not among the calls C04 lists: here it is held to the FRAME only (every other path and
+\* attribute unchanged, live view = re-opened view, the target stays a file); what the target holds is adopted
+\* from the observation, and a difference from the plain tree's answer is printed as DRIFT (not a violation)
+TTruncate == /\ Ev.a = "Truncate" /\ Ev.res \in {"ok", "err"} /\ Clean
+             /\ Api = Api2 /\ OthersUnchanged(Api, {Ev.p}) /\ NodeOK(Api[Ev.p], Ev.p)
+             /\ AttrFrame({Ev.p}, Times)
+             /\ (IF Ev.res = "ok" /\ CanWrite(Ev.p) /\ Api # TruncateT(Ev.p, Ev.off)
+                   THEN PrintT(<<"DRIFT", l, "Truncate", Ev.p, Ev.off>>) ELSE TRUE)
+             /\ tree' = Api /\ attr' = At /\ out' = Ev.res
 \* macro calls whose net effect on the universe is nil: Churn creates k temporary entries in a
 \* directory (growing it past one block) and removes them again; Straddle does so in a fresh directory
 \* after using up the free blocks below a block-group boundary (the directory grows across it); GroupEdge
-\* places files at the first blocks of two neighbouring groups, removes one and checks the other; BigFile writes a multi-block
+\* places files at the first blocks of two neighbouring groups, removes one and checks the other; ManyExtents
+\* grows a temporary file to hundreds of unmergeable extents and reads it back; Full fills the volume until a
+\* write is refused, makes calls that need a block or an inode, and empties it again; BigFile writes a multi-block
 \* file outside the universe in pieces, reads it back live and after re-opening (bigok), removes it
-TChurn   == Ev.a \in {"Churn", "Churn2", "Straddle", "GroupEdge"} /\ Ev.res = "ok" /\ Clean /\ Api = tree /\ Api2 = tree /\ AttrFrame({Ev.p}, Times) /\ attr' = At /\ UNCHANGED <<tree, out>>
+TChurn   == Ev.a \in {"Churn", "Churn2", "Straddle", "GroupEdge", "ManyExtents", "Full"} /\ Ev.res = "ok" /\ Clean /\ Api = tree /\ Api2 = tree /\ AttrFrame({Ev.p}, Times) /\ attr' = At /\ UNCHANGED <<tree, out>>
 TBigFile == Ev.a = "BigFile" /\ Ev.res = "ok" /\ Clean /\ Ev.bigok /\ Api = tree /\ Api2 = tree /\ AttrFrame({}, {}) /\ UNCHANGED vars
-Match == Ev.panic = "" /\ (TChurn \/ TBigFile \/ TMkdir \/ TCreate \/ TWrite \/ TAppend \/ TSymlink \/ TRemove \/ TChmod \/ TChown \/ TChtimes)
+Match == Ev.panic = "" /\ (TChurn \/ TBigFile \/ TTruncate \/ TMkdir \/ TCreate \/ TWrite \/ TAppend \/ TSymlink \/ TRemove \/ TChmod \/ TChown \/ TChtimes)
 InRange  == l <= Len(Trace)
 Step     == InRange /\ ~skip /\ Ev.a # "Reset" /\ Match /\ l' = l + 1 /\ UNCHANGED skip
 Mismatch == /\ InRange /\ ~skip /\ Ev.a # "Reset" /\ ~ENABLED Match
